@@ -23,7 +23,10 @@ search layer (NOT a proof): the parser and the compiler driver are ~13 kLoC of R
     line / column agree with the text; the outcome is deterministic."""
 import hashlib, os
 from vplib import sexpr, testsrc
-from vplib.common import VERIF, NCPU
+from vplib.common import VERIF
+from vplib import common as _common
+# VERIF_JOBS caps the fan-out (shared machine); default: all cores
+NCPU = max(1, min(_common.NCPU, int(os.environ.get("VERIF_JOBS", str(_common.NCPU)))))
 from vplib.props import c18gen
 
 MANIFEST = dict(
@@ -188,6 +191,19 @@ def run(ctx):
     for name, f in shapes.items():
         for d in (1, 2, 4, 6, 8):
             cases.append(("paren-shallow", name, f(d), None))
+    # type definitions, drawn systematically (compiler-totality leg: typing.rs resolution, spreads, partials, generics)
+    for t in c18gen.typedef_probes():
+        if c18gen.nesting(t) <= 100:
+            cases.append(("typedef-probe", "-", t, None))
+    tprogs, tstats = c18gen.typedef_programs(rng, ctx.n(1800, 30000))
+    for t in tprogs:
+        cases.append(("typedefs", "-", t, None))
+    tm = c18gen.Mut(rng, [("typedefs", t) for t in tprogs])
+    for _ in range(ctx.n(600, 10000)):
+        o, src = tm.pick_source()
+        t = getattr(tm, rng.choice(["delete", "substitute", "duplicate", "charmut", "prefix"]))(src)
+        if c18gen.nesting(t) <= 100 and c18gen.paren_depth(t) <= 12:
+            cases.append(("typedefs-mutant", "-", t, None))
     nmut = ctx.n(6000, 150000)
     for k, o, t in c18gen.generate(rng, seeds, nmut):
         cases.append((k, o, t, None))
@@ -337,6 +353,8 @@ def run(ctx):
         "evaluations": len(cases) + len(det_idx) + len(deep) + len(curve_cases), "distinct_nontrivial": nontrivial,
         "rule": "search layer: distinct input texts (SHA-1) that are not a verbatim repository/generated source and have >= 3 characters; every text has bracket nesting <= 100",
         "inputs_by_class": by_class, "outcomes": hist,
+        "typedef_constructs_generated": dict(sorted(tstats.items())),
+        "typedef_outcomes": typedef_hist(cases, outs),
         "parse_error_positions_checked": pos_checked,
         "determinism_pairs": len(det_idx), "determinism_compile_error_kind_only_differences": kind_only_diffs,
         "max_bracket_nesting_generated": nest_all, "max_bracket_nesting_parsed": nest_parsed, "max_bracket_nesting_compiled": nest_compiled,
@@ -389,6 +407,15 @@ def is_index_overflow(text, o):
     return any(int(m.group(1)) >= 2 ** 64 for m in re.finditer(r"\.([0-9]{20,})", text))
 
 
+def typedef_hist(cases, outs):
+    h = {}
+    for c, o in zip(cases, outs):
+        if c[0].startswith("typedef"):
+            k = c[0] + " " + (" ".join(o.split(" ")[:3]) if o.startswith("(parsed) (compile-error") else outcome_key(o))
+            h[k] = h.get(k, 0) + 1
+    return dict(sorted(h.items()))
+
+
 def shrink_position(front, text):
     def failing(o):
         return False
@@ -430,7 +457,18 @@ def model_layer(ctx, ok):
     lines, profs = [], []
     for l in c09.load_corpus("c09_graphs.txt"):
         k = l.find(" (expect ")
-        lines.append(l[:k] if k >= 0 else l)
+        l = l[:k] if k >= 0 else l
+        # C09's corpus grows query kinds of its own (filter, unionids, ...): this leg knows the four
+        # recursive algorithms only; drop the others, and the line if nothing is left
+        j = l.find(" (qs ")
+        if j >= 0:
+            import re as _re
+            body = "".join(" " + m.group(0) for m in _re.finditer(r"\((\w+)[^()]*\)", l[j + 4:])
+                           if m.group(1) in ("compat", "overlap", "isect", "compl"))
+            if not body:
+                continue
+            l = l[:j] + " (qs" + body + ")"
+        lines.append(l)
         profs.append("c09-corpus")
     for l in load_corpus("c18_graphs.txt"):
         lines.append(l)
